@@ -180,6 +180,11 @@ def diff_msg(a, b, allow_partial):
     if allow_partial or (a[4] is not None and a[4] == b[4]):
         # the message during which the error struck: what was delivered before the error may be shorter
         if not a[1].startswith(b[1]):
+            # both runs ended this body with the same payload exception (e.g. corrupt compressed content): how many
+            # decoded bytes came out before the decoder noticed is "how early", in either direction; the bytes that
+            # were delivered must still agree
+            if a[4] is not None and a[4] == b[4] and b[1].startswith(a[1]):
+                return None
             return "body-not-prefix"
         return None
     if a[1] != b[1]:
